@@ -540,6 +540,53 @@ def delegationDecision (dnssecOn hasAnchors cd : Bool) (qname : Name) (parentHas
       else if hasNSEC then (if nsecOk then .insecure else .fail .denial)
       else .fail .nsecmissing
 
+/-! ### what "no signatures" means for the zone that served the response
+
+`Resolver.isZoneSecure` as far as it is decided without the network, and `Resolver.rootParentDS`
+(a185dbb): a response served by the root has no referral above it, so its DS set is derived from
+the live trust anchors instead of being empty. -/
+
+/-- `isZoneSecure(qname, parentDS, zone)`; `probe` is the verdict of the DS walk it falls back to. -/
+def isZoneSecure (parentDS : List DS) (zone : Name) (probe : Bool) : Bool :=
+  if !parentDS.any supportedDS then false
+  else match parentDS with
+    | d :: _ => if d.owner == zone then true else probe
+    | [] => false
+
+/-- `rootParentDS(parentDS, zone)`; `anchorDS` = `dsRRFromRootKeys` (`[]` = no usable anchor = error). -/
+def rootParentDS (dnssecOn : Bool) (parentDS anchorDS : List DS) (zone : Name) : Option (List DS) :=
+  if !dnssecOn || !parentDS.isEmpty || zone != [] then some parentDS
+  else if anchorDS.isEmpty then none else some anchorDS
+
+/-- `Resolver.answer` with the zone-security test spelled out. -/
+def answerAt (dnssecOn hasAnchors cd : Bool) (qname zone : Name) (parentDS anchorDS : List DS)
+    (cands : List Cand) (probe provenInsecure : Bool) : Outcome :=
+  if cd then .passthrough
+  else if dnssecOn && !hasAnchors then .fail .anchors
+  else match rootParentDS dnssecOn parentDS anchorDS zone with
+    | none => .fail .anchors
+    | some pds => answerDecision dnssecOn hasAnchors cd qname cands (isZoneSecure pds zone probe) provenInsecure
+
+/-! ### which validation path a response takes — `Resolver.resolve` after the exchange (dc006eb) -/
+
+inductive Route
+  | relay        -- returned to the client side as it is, unvalidated
+  | authority    -- `Resolver.authority`
+  | answer       -- `Resolver.answer`
+  | retry        -- asked again (next minimisation level)
+  | referral     -- `processAuthoritySection` (delegation → `validateDelegation`, else `authority`)
+deriving DecidableEq, Repr
+
+/-- `rcode`: 0 NOERROR, 2 SERVFAIL, 3 NXDOMAIN; `nAns` / `nNs`: section sizes; `minimized`: the
+question sent was a minimised one. -/
+def dispatch (rcode nAns nNs : Nat) (minimized : Bool) : Route :=
+  if rcode != 0 && nAns == 0 && nNs == 0 then
+    (if minimized then .retry else if rcode == 3 then .authority else .relay)
+  else if !minimized && nAns != 0 then .answer   -- (an NXDOMAIN/SERVFAIL rcode next to answer records is reset to NOERROR first)
+  else if (minimized && nAns == 0 && nNs == 0) || nAns != 0 then .retry
+  else if nNs != 0 then .referral
+  else .authority                                 -- "no answer, no authority": the clean empty NOERROR is a NODATA
+
 /-! ### errors toward the client — `DNSHandler.handle` + `dnsutil.SetRcodeWithEDE` -/
 
 /-- Extended DNS Error code carried by each validation error (`dnssec/errors.go`, `dnsutil.ErrorToEDE`). -/
